@@ -29,6 +29,10 @@ pub struct FbCase {
     /// call `.handle(predicate)` on the builder before the strategy setter instead of after it
     #[serde(default)]
     pub handle_first: bool,
+    /// further calls through the same layer after the first one of each cell: (outcome shift,
+    /// route: 0 same service, 1 a clone of it, 2 another service built from the same layer)
+    #[serde(default)]
+    pub more_calls: Vec<(u8, u8)>,
 }
 
 fn default_backup_code() -> u32 {
@@ -46,8 +50,9 @@ fn case_strategy(_tier: Tier) -> BoxedStrategy<FbCase> {
         0u64..3,
         100u32..200,
         any::<bool>(),
+        prop::collection::vec((0u8..3, 0u8..3), 0..=3),
     )
-        .prop_map(|(req_id, req_key, req_tag, value_serial, code_a, code_b, lat, backup_code, handle_first)| FbCase {
+        .prop_map(|(req_id, req_key, req_tag, value_serial, code_a, code_b, lat, backup_code, handle_first, more_calls)| FbCase {
             req_id,
             req_key,
             req_tag,
@@ -57,6 +62,7 @@ fn case_strategy(_tier: Tier) -> BoxedStrategy<FbCase> {
             lat,
             backup_code,
             handle_first,
+            more_calls,
         })
         .boxed()
 }
@@ -96,7 +102,13 @@ async fn run_grid(case: &FbCase) -> (Vec<String>, usize, Vec<serde_json::Value>)
                 cells += 1;
                 let log = Log::new();
                 let (lat, code_a, code_b) = (case.lat, case.code_a, case.code_b);
-                let inner = Scripted::new(log.clone(), 1, move |_, _, _| match outcome {
+                // outcome of the k-th call through this cell's layer
+                let mut seq: Vec<(usize, u8)> = vec![(outcome, 0)];
+                for (shift, route) in &case.more_calls {
+                    seq.push(((outcome + *shift as usize) % 3, *route));
+                }
+                let outcomes: Vec<usize> = seq.iter().map(|x| x.0).collect();
+                let inner = Scripted::new(log.clone(), 1, move |_, _, g| match outcomes[g.min(outcomes.len() - 1)] {
                     0 => Step::ok(lat),
                     1 => Step::err(lat, code_a),
                     _ => Step::err(lat, code_b),
@@ -186,13 +198,28 @@ async fn run_grid(case: &FbCase) -> (Vec<String>, usize, Vec<serde_json::Value>)
                 }
                 let layer = b.build();
                 let mut svc = layer.layer(inner.clone());
+                for (j, &(outcome, route)) in seq.iter().enumerate() {
+                let log_from = log.len();
+                let inv_before = invoked.load(Ordering::SeqCst);
                 let req = Req {
-                    id: case.req_id,
+                    id: case.req_id.wrapping_add(j as u32),
                     key: case.req_key,
                     tag: case.req_tag,
                 };
-                let _ = futures::future::poll_fn(|cx| svc.poll_ready(cx)).await;
-                let fut = svc.call(req.clone());
+                let mut other;
+                let target = match route {
+                    0 => &mut svc,
+                    1 => {
+                        other = svc.clone();
+                        &mut other
+                    }
+                    _ => {
+                        other = layer.layer(inner.clone());
+                        &mut other
+                    }
+                };
+                let _ = futures::future::poll_fn(|cx| target.poll_ready(cx)).await;
+                let fut = target.call(req.clone());
                 // drive with the virtual clock
                 let mut fut = Box::pin(fut);
                 let result = loop {
@@ -203,7 +230,7 @@ async fn run_grid(case: &FbCase) -> (Vec<String>, usize, Vec<serde_json::Value>)
                     crate::vclock::advance_ms(1);
                     tokio::task::yield_now().await;
                 };
-                let snap = log.snapshot();
+                let snap: Vec<Ev> = log.snapshot().split_off(log_from);
                 let inner_enters: Vec<(u64, Req)> = snap
                     .iter()
                     .filter_map(|e| match e {
@@ -219,10 +246,19 @@ async fn run_grid(case: &FbCase) -> (Vec<String>, usize, Vec<serde_json::Value>)
                     })
                     .collect();
                 let cell = format!(
-                    "strategy {} / predicate {} / inner {}",
+                    "strategy {} / predicate {} / inner {}{}",
                     STRATEGIES[strat],
                     PREDICATES[pred],
-                    ["ok", "error a", "error b"][outcome]
+                    ["ok", "error a", "error b"][outcome],
+                    if j == 0 {
+                        String::new()
+                    } else {
+                        format!(
+                            " (call {} of the cell, through {})",
+                            j + 1,
+                            ["the same service", "a clone", "a second service of the layer"][route as usize]
+                        )
+                    }
                 );
                 if inner_enters.len() != 1 || inner_enters[0].1 != req {
                     violations.push(format!(
@@ -243,7 +279,7 @@ async fn run_grid(case: &FbCase) -> (Vec<String>, usize, Vec<serde_json::Value>)
                         2 => false,
                         _ => code % 2 == 1,
                     };
-                let n_inv = invoked.load(Ordering::SeqCst);
+                let n_inv = invoked.load(Ordering::SeqCst) - inv_before;
                 let describe = |r: &Result<Resp, FallbackError<SErr>>| format!("{r:?}");
                 if !handled {
                     if n_inv != 0 || !backup_enters.is_empty() {
@@ -272,7 +308,7 @@ async fn run_grid(case: &FbCase) -> (Vec<String>, usize, Vec<serde_json::Value>)
                     }
                     let ok = match (strat, &result) {
                         (0, Ok(r)) => *r == value,
-                        (1, Ok(r)) => r.serial == VF_BASE && r.req == zero_req(),
+                        (1, Ok(r)) => r.serial == VF_BASE + inv_before && r.req == zero_req(),
                         (2, Ok(r)) => r.serial == FE_BASE + code as u64 * 1000 + inner_serial && r.req == zero_req(),
                         (3, Ok(r)) => r.serial == FRE_BASE + code as u64 * 1000 + inner_serial && r.req == req,
                         (4, Ok(r)) => {
@@ -305,6 +341,7 @@ async fn run_grid(case: &FbCase) -> (Vec<String>, usize, Vec<serde_json::Value>)
                 if samples.len() < 3 && handled {
                     samples.push(json!({"cell": cell, "result": describe(&result)}));
                 }
+                }
             }
         }
     }
@@ -334,11 +371,17 @@ impl Property for C17 {
         }
         r.nontrivial = true;
         r.class("full_grid_84_cells");
+        if !case.more_calls.is_empty() {
+            r.class("several_calls_per_cell");
+        }
+        if case.more_calls.iter().any(|c| c.1 == 2) {
+            r.class("second_service_of_the_layer");
+        }
         r.trace = json!({"cells_enumerated": cells, "handled_error_samples": samples});
         r
     }
     fn rule(&self) -> String {
-        "every generated case (request id/key/tag, value payload, two inner error codes and a backup error code of either parity, inner latency 0-2 ms) enumerates the complete grid {value, value_fn, from_error, from_request_error, backup service ok, backup service failing, exception} x {no predicate, accept all, refuse all, accept odd codes} x {inner ok, error a, error b} = 84 cells (exhaustive for the finite part). Oracle: pure reference function: success or refused error => inner result unchanged (serial/code identity) and no strategy or backup invocation; handled error => exactly the strategy's value for this request and this error (value identity, error encoded in the response, request echoed, backup entered once with this request, FallbackFailed carrying the backup's error, transformed error); inner service entered exactly once with the identical request. Non-trivial: every case contains all handled-error cells; distinct by hash of the payloads".into()
+        "every generated case (request id/key/tag, value payload, two inner error codes and a backup error code of either parity, inner latency 0-2 ms) enumerates the complete grid {value, value_fn, from_error, from_request_error, backup service ok, backup service failing, exception} x {no predicate, accept all, refuse all, accept odd codes} x {inner ok, error a, error b} = 84 cells (exhaustive for the finite part); each cell's layer then takes 0-3 further generated calls (other outcomes) through the same service, a clone or a second service built from the same layer, so that per-invocation strategies (value_fn counter) are exercised repeatedly. Oracle: pure reference function: success or refused error => inner result unchanged (serial/code identity) and no strategy or backup invocation; handled error => exactly the strategy's value for this request and this error (value identity, error encoded in the response, request echoed, backup entered once with this request, FallbackFailed carrying the backup's error, transformed error); inner service entered exactly once with the identical request. Non-trivial: every case contains all handled-error cells; distinct by hash of the payloads".into()
     }
     fn assumptions(&self) -> Vec<String> {
         vec!["one request per grid cell; payloads are drawn, the grid is enumerated".into()]
